@@ -132,6 +132,14 @@ impl<K: Eq + Hash, V, S> DashMap<K, V, S> {
     }
     pub fn is_empty(&self) -> bool { self.len() == 0 }
     pub fn iter<'a>(&'a self) -> iter::Iter<'a, K, V, S> { iter::Iter { map: self, next: 0 } }
+    /// the entry API (exclusive lock on the map while the entry is alive)
+    pub fn entry<'a>(&'a self, key: K) -> mapref::entry::Entry<'a, K, V, S> {
+        self.lock_exclusive();
+        match self.position(&key) {
+            Some(i) => mapref::entry::Entry::Occupied(mapref::entry::OccupiedEntry { map: self, slot: i, key }),
+            None => mapref::entry::Entry::Vacant(mapref::entry::VacantEntry { map: self, key }),
+        }
+    }
 }
 
 pub mod mapref {
@@ -154,6 +162,24 @@ pub mod mapref {
         impl<'a, K: Eq + Hash, V, S> Deref for RefMut<'a, K, V, S> { type Target = V; fn deref(&self) -> &V { self.value() } }
         impl<'a, K: Eq + Hash, V, S> DerefMut for RefMut<'a, K, V, S> { fn deref_mut(&mut self) -> &mut V { self.value_mut() } }
         impl<'a, K: Eq + Hash, V, S> Drop for RefMut<'a, K, V, S> { fn drop(&mut self) { self.map.unlock_exclusive(); } }
+    }
+    pub mod entry {
+        use super::super::*;
+        pub enum Entry<'a, K: Eq + Hash, V, S = RandomState> { Occupied(OccupiedEntry<'a, K, V, S>), Vacant(VacantEntry<'a, K, V, S>) }
+        pub struct OccupiedEntry<'a, K: Eq + Hash, V, S = RandomState> { pub(crate) map: &'a DashMap<K, V, S>, pub(crate) slot: usize, pub(crate) key: K }
+        impl<'a, K: Eq + Hash, V, S> OccupiedEntry<'a, K, V, S> {
+            pub fn key(&self) -> &K { &self.map.slot(self.slot).as_ref().unwrap().0 }
+            pub fn get(&self) -> &V { &self.map.slot(self.slot).as_ref().unwrap().1 }
+            pub fn get_mut(&mut self) -> &mut V { &mut self.map.slot(self.slot).as_mut().unwrap().1 }
+            pub fn insert(&mut self, value: V) -> V { std::mem::replace(&mut self.map.slot(self.slot).as_mut().unwrap().1, value) }
+            pub fn remove(self) -> V { self.map.slot(self.slot).take().unwrap().1 }
+        }
+        impl<'a, K: Eq + Hash, V, S> Drop for OccupiedEntry<'a, K, V, S> { fn drop(&mut self) { self.map.unlock_exclusive(); } }
+        pub struct VacantEntry<'a, K: Eq + Hash, V, S = RandomState> { pub(crate) map: &'a DashMap<K, V, S>, pub(crate) key: K }
+        impl<'a, K: Eq + Hash, V, S> VacantEntry<'a, K, V, S> {
+            pub fn key(&self) -> &K { &self.key }
+        }
+        impl<'a, K: Eq + Hash, V, S> Drop for VacantEntry<'a, K, V, S> { fn drop(&mut self) { self.map.unlock_exclusive(); } }
     }
     pub mod multiple {
         use super::super::*;
